@@ -8,7 +8,12 @@
 //	               written by the real writer (explicit RotateFile and head-size-limit driven rotation);
 //	               on-disk bytes are compared with an independent reference encoder and the log is read back.
 //	P2 truncation  every log of a covering set x every layout x EVERY byte cut (crash): the reader returns
-//	               a prefix of what was written, then EOF / an error, never anything else.
+//	               a prefix of what was written, then io.EOF or an error classified as corruption
+//	               (wal.IsDataCorruptionError) - never anything else, never another kind of error.
+//	P5 crash+search every {message, marker} sequence <= n x every split x EVERY byte cut x every height x search mode:
+//	               SearchForHeight on a log cut inside a line behaves as on the log cut at the previous line
+//	               boundary (found / not found, never an unclassified error); the returned reader delivers the
+//	               surviving lines after the marker, then EOF or a corruption error (trunc_search.go).
 //	P3 corruption  every byte of every line x a substitution alphabet (all 255 other values in thorough):
 //	               a corrupted message line is reported as an error or decodes bit-identically; every item
 //	               returned is bit-identical to a written one, in order.
